@@ -126,7 +126,47 @@ class Lowerer:
             for rx, ct in getattr(self.p, 'type_patterns', ()):
                 if rx.fullmatch(s):
                     return ct + ptr
+        # an enumeration DEFINED IN THE REPOSITORY that the unit has no entry for (typically introduced by a refactoring): int,
+        # like every other enum (enums_as_int); its constants are emitted with their values as for the known ones
+        for cand in ([t] if node is None else [qt(node), dqt(node)]) if t is None else [t]:
+            s = strip_type(cand)
+            ptr = ''
+            while s.endswith('*'):
+                s = s[:-1].strip()
+                ptr += '*'
+            if self._repo_enum(s):
+                self.p.types[s] = 'int'
+                return 'int' + ptr
         raise Unsupported('type %s' % (t if t is not None else qt(node) + ' / ' + dqt(node)))
+
+    _ENUM_CACHE = {}
+
+    def _repo_enum(self, name):
+        srcs = getattr(self, 'source_files', None)
+        if not srcs or not re.fullmatch(r'[A-Za-z_]\w*(::[A-Za-z_]\w*)*', name or ''):
+            return False
+        key = (srcs[0], name)
+        if key in Lowerer._ENUM_CACHE:
+            return Lowerer._ENUM_CACHE[key]
+        from . import astx
+        from .configure import REPO
+        import os
+        last = name.split('::')[-1]
+        ok = False
+        try:
+            for d in astx.find_decls(srcs[0], last, 'EnumDecl', last, tuple(getattr(self, 'extra_flags', ()) or ())):
+                loc = d.get('loc', {})
+                for k in ('expansionLoc', 'spellingLoc'):
+                    if k in loc:
+                        loc = loc[k]
+                        break
+                f = loc.get('file') or d.get('range', {}).get('begin', {}).get('file')
+                if f is None or os.path.realpath(f).startswith(os.path.realpath(REPO) + os.sep):
+                    ok = True
+        except Exception:
+            ok = False
+        Lowerer._ENUM_CACHE[key] = ok
+        return ok
 
     def ntype(self, n):
         """C type of expression/decl node n (tries sugar first, then the desugared type)"""
@@ -783,6 +823,7 @@ class Lowerer:
             raise Unsupported('local lambda %s: %d capture fields, %d capture initialisers' % (v.get('name'), len(fields), len(inits)))
         child = type(self)(op, '%s__%s' % (self.cname, v['name']), self.p, this_type=None, is_lambda=True)
         child.source_files = getattr(self, 'source_files', [])
+        child.extra_flags = getattr(self, 'extra_flags', ())
         extra, call_args, captures_this = [], [], False
         for f, i in zip(fields, inits):
             i0 = self.skip(i)
